@@ -463,6 +463,26 @@ def run(ctx):
         three("-long", p_all, p_idx, p_seek)
     ctx.count("long_capture_messages", nlong)
 
+    # ---- 2c. one DATADumpFile object used for a whole sequence of reads (and appends in between): every read must
+    #          give what a fresh object gives on the same file content - no dependence on the position earlier calls left behind
+    nhist = 0
+    for c in [c for c in caps if c["dom"] and len(c["ms"]) >= 2][:8 if quick else 60]:
+        ddf, bio = R.open(c["file"])
+        n = len(c["ms"])
+        for _ in range(12):
+            if rng.chance(1, 2):
+                i = rng.below(n + 2)
+                got, want, what = R.one(ddf.parse_msg(i)), R.parse_msg(c["file"], i), "parse_msg(%d)" % i
+            else:
+                sk, cnt = rng.choice([None, 0, 1, n - 1, n]), rng.choice([None, 1, 2, n])
+                got, want, what = R.pall(ddf.parse_all(skip=sk, count=cnt)), R.parse_all(c["file"], sk, cnt), "parse_all(skip=%r, count=%r)" % (sk, cnt)
+            nhist += 1
+            if got != want:
+                ctx.oracle_fail("a read on a DATADumpFile that served other reads before differs from the same read on a fresh object: " + what,
+                                dict(msgs=[U.short(m) for m in c["ms"]], call=what), key="c15-read-history")
+                break
+    ctx.count("reads_on_reused_object", nhist)
+
     # ---- 3. truncation
     # exact comparison at sampled offsets (all record boundaries -1/0/+1, header boundaries +2/+3/+4, a few random ones)
     def cut_cases(c, p_all, p_idx, p_seek):
